@@ -25,8 +25,8 @@ theorem C18_layers_add_reject_unchanged {s s' : State} {lid : Nat} {e : Err}
 
 /-- the same for `create_property_layer` (legacy: construct + add): no layer object, array or name is
     left behind by a rejected call. -/
-theorem C18_layers_create_reject_unchanged {s s' : State} {n : String} {d : Int} {e : Err}
-    (h : create s n d = (s', .err e)) : s' = s := by
+theorem C18_layers_create_reject_unchanged {s s' : State} {n : String} {dt : DType} {d : Int} {e : Err}
+    (h : create s n dt d = (s', .err e)) : s' = s := by
   unfold create at h
   reject_branches
 
@@ -43,29 +43,42 @@ theorem C18_layers_add_rejects_exactly {s : State} {lid : Nat} {l : Layer} (hl :
 theorem C18_layers_step_reject_unchanged {s s' : State} {op : Op} {e : Err}
     (h : step s op = (s', .err e)) : s' = s := by
   cases op with
-  | create n d => exact C18_layers_create_reject_unchanged h
-  | newLayer n dims d => simp only [step] at h; unfold newLayer at h; reject_branches
+  | create n dt d => exact C18_layers_create_reject_unchanged h
+  | newLayer n dims dt d => simp only [step] at h; unfold newLayer at h; reject_branches
   | attach l => exact C18_layers_add_reject_unchanged h
   | detach n => simp only [step] at h; unfold detach at h; reject_branches
   | layerSet l c v => simp only [step] at h; unfold layerSet at h; reject_branches
   | layerGet l c => simp only [step, Prod.mk.injEq] at h; exact h.1.symm
   | cellSet n c v => simp only [step] at h; unfold cellSet at h; reject_branches
   | cellGet n c => simp only [step, Prod.mk.injEq] at h; exact h.1.symm
-  | setCells l v cond => simp only [step] at h; unfold setCells at h; reject_branches
+  | cellSet2 l c w => simp only [step] at h; unfold cellSet2 layerSet at h; reject_branches
+  | cellGet2 l c => simp only [step, Prod.mk.injEq] at h; exact h.1.symm
+  | setCells l w cond =>
+    cases w with
+    | raw v => simp only [step] at h; unfold setCells at h; reject_branches
+    | py x => simp only [step] at h; unfold setCellsV setCells at h; reject_branches
+  | setFrom l hd cond => simp only [step] at h; unfold setFrom at h; reject_branches
   | modifyCells l f cond => simp only [step] at h; unfold modifyCells at h; reject_branches
+  | modifyT l f cond rd => simp only [step] at h; unfold modifyCellsT at h; reject_branches
+  | modifyU l op x cond => simp only [step] at h; unfold modifyU modifyCellsT at h; reject_branches
   | modifyCell l c f => simp only [step] at h; unfold modifyCell at h; reject_branches
+  | modifyCellU l c op x => simp only [step] at h; unfold modifyCellU modifyCell at h; reject_branches
+  | fromData n hd => simp only [step] at h; unfold fromData at h; reject_branches
   | grab hd l => simp only [step] at h; unfold grab at h; reject_branches
   | hget hd c => simp only [step, Prod.mk.injEq] at h; exact h.1.symm
   | hset hd c v => simp only [step] at h; unfold hset at h; reject_branches
   | hdump hd => simp only [step, Prod.mk.injEq] at h; exact h.1.symm
   | dump l => simp only [step, Prod.mk.injEq] at h; exact h.1.symm
   | dumpName n => simp only [step, Prod.mk.injEq] at h; exact h.1.symm
+  | dtype l => simp only [step, Prod.mk.injEq] at h; exact h.1.symm
   | layerSelect l p => simp only [step, Prod.mk.injEq] at h; exact h.1.symm
   | aggregate l k => simp only [step, Prod.mk.injEq] at h; exact h.1.symm
   | place a c => simp only [step] at h; unfold place at h; reject_branches
   | move a c => simp only [step] at h; unfold move at h; reject_branches
   | remove a => simp only [step] at h; unfold remove at h; reject_branches
   | empties => simp only [step, Prod.mk.injEq] at h; exact h.1.symm
+  | nbhdMask k geom torus c ic r => simp only [step] at h; unfold nbhdMask at h; reject_branches
+  | gridSet n => simp only [step] at h; unfold gridSet at h; reject_branches
   | select ms oe conds exts save => simp only [step] at h; reject_branches
 
 def Out.isErr : Out → Bool
@@ -98,6 +111,7 @@ theorem C18_layers_rejected_calls_invisible (s : State) (ops : List Op) :
         | arr vs => rw [ho] at hr; simp [Out.isErr] at hr
         | sel l m => rw [ho] at hr; simp [Out.isErr] at hr
         | emp v a => rw [ho] at hr; simp [Out.isErr] at hr
+        | dt d => rw [ho] at hr; simp [Out.isErr] at hr
       simp only [if_true, hs, List.filter_cons, hr, Bool.not_true, Bool.false_eq_true, if_false]
       exact ih s
     | false =>
@@ -108,13 +122,13 @@ theorem C18_layers_rejected_calls_invisible (s : State) (ops : List Op) :
 /-- non-vacuity: a history in which calls are rejected (clash, duplicate, mis-shaped, unknown name)
     between accepted ones -/
 example : (run (init .new [2, 2] 0)
-    [.create "agents" 0, .create "a" 3, .create "a" 4, .newLayer "b" [3, 2] 0, .attach 2, .detach "zz",
+    [.create "agents" .int 0, .create "a" .int 3, .create "a" .int 4, .newLayer "b" [3, 2] .int 0, .attach 2, .detach "zz",
      .cellSet "a" [1, 1] 7, .cellGet "a" [1, 1]]).2 =
     [.err (.value .clash), .id 1, .err (.value .exists), .id 2, .err (.value .dims), .err .key, .ok, .val 7] := by
   decide
 
 example : (accepted (init .new [2, 2] 0)
-    [.create "agents" 0, .create "a" 3, .create "a" 4, .newLayer "b" [3, 2] 0, .attach 2, .detach "zz",
+    [.create "agents" .int 0, .create "a" .int 3, .create "a" .int 4, .newLayer "b" [3, 2] .int 0, .attach 2, .detach "zz",
      .cellSet "a" [1, 1] 7, .cellGet "a" [1, 1]]).length = 4 := by
   decide
 
